@@ -46,6 +46,9 @@ func (m Matrix) Closure() {
 func (m Matrix) Graph(reuse []int) [][]int {
 	n := m.n
 	ret := make([][]int, n)
+	if n == 0 {
+		return ret
+	}
 	slice := m.set.Slice(reuse)
 	var start, index int
 	for i, val := range slice {
